@@ -9,7 +9,7 @@ EXPLANATION = (
     "(variant, and Some/None of the properties field) are compared with the shapes the router, links and AckLog can construct (constructibility = aggregate constructions in non-codec code, "
     "following pattern-bound fields back to the variants they came from, skipping arms of variants that are never constructed): constructible ⊆ encodable; "
     "(R-C20-passthrough) the Forward handed to the link carries the stored publish properties (so they survive towards MQTT 5 subscribers) and the publisher's topic alias is cleared before storage. "
-    "(R-C20-props) the broker's v5 PUBLISH property encoder and decoder use the same identifier and MQTT 5 wire type for each of the publish properties (shared with C04's table rule); "
+    "(R-C20-props) the broker's v5 PUBLISH property encoder and decoder use the same identifier and MQTT 5 wire type for each of the publish properties (shared with C04's table rule), and its reader/len() count every variable-length property value once with its 2-byte prefix (shared with R-C04-prop-accounting); "
     "NOT decided: byte-level equality of topic/payload across versions (value level, see C04).")
 ASSUMPTIONS = [
     "packets decoded from the network (constructed inside protocol::v4/v5 codec modules) reach an encoder only through the router paths analysed here (Publish properties are treated as possibly present)",
@@ -215,6 +215,10 @@ def publish_props(ctx, prog):
     spec = json.load(open(os.path.join(c04.RULES_DIR, "mqtt5_properties.json")))
     view = _PublishOnly(ctx, "R-C20-props")
     c04.prop_tables(view, prog, "rumqttd-v5", c04.COPIES["rumqttd-v5"][1], {r["id"]: r for r in spec})
+    # ... and parses them back without losing count of the property bytes (a publish arriving on the v5 listener
+    # must be decoded intact before it can cross to either protocol version)
+    c04.prop_accounting(view, prog, "rumqttd-v5", c04.COPIES["rumqttd-v5"][1])
+    c04.prop_len_accounting(view, prog, "rumqttd-v5", c04.COPIES["rumqttd-v5"][1])
     ctx.floor("R-C20-props", "verdicts about protocol::v5::publish properties", view.kept, 8)
 
 
